@@ -331,14 +331,15 @@ func runHarness(p *interp.Program, h HarnessRun, tier string, workers int, out *
 	for _, b := range ex.Bugs {
 		fmt.Printf("      ENGINE: %s\n", b)
 	}
-	// candidates
+	// candidates (case ids are unique per harness run)
+	runTag := fmt.Sprintf("%s@%d", h.Harness, len(out.summaries))
 	n := 0
 	for _, rec := range ex.Violations {
 		vars := interp.VarInfos(rec.Vars)
 		for _, a := range rec.Asserts {
 			if (a.Status == "sat" || a.Status == "concrete-false") && a.Model != nil {
 				n++
-				c := caseFromModel(fmt.Sprintf("%s#v%d", h.Harness, n), h.Harness, params, vars, a.Model)
+				c := caseFromModel(fmt.Sprintf("%s#v%d", runTag, n), h.Harness, params, vars, a.Model)
 				out.violations = append(out.violations, violation{Harness: h.Harness, Label: a.Label, Case: c, Kind: "assert"})
 			}
 		}
@@ -348,7 +349,7 @@ func runHarness(p *interp.Program, h HarnessRun, tier string, workers int, out *
 		}
 		if (kind == "panic" || kind == "budget") && rec.Model != nil {
 			n++
-			c := caseFromModel(fmt.Sprintf("%s#v%d", h.Harness, n), h.Harness, params, vars, rec.Model)
+			c := caseFromModel(fmt.Sprintf("%s#v%d", runTag, n), h.Harness, params, vars, rec.Model)
 			c.Expected = rec.Expected
 			lab := h.PanicLabel
 			if lab == "" {
@@ -372,7 +373,7 @@ func runHarness(p *interp.Program, h HarnessRun, tier string, workers int, out *
 	}
 	for i := 0; i < len(ex.Samples); i += step {
 		rec := ex.Samples[i]
-		c := caseFromModel(fmt.Sprintf("%s#s%d", h.Harness, i), h.Harness, params, interp.VarInfos(rec.Vars), rec.Model)
+		c := caseFromModel(fmt.Sprintf("%s#s%d", runTag, i), h.Harness, params, interp.VarInfos(rec.Vars), rec.Model)
 		c.Expected = rec.Expected
 		out.samples = append(out.samples, c)
 	}
